@@ -98,6 +98,13 @@ Theorem c17_declarations_constant : forall ops s, reachable ops s ->
 Proof. exact decl_const. Qed.
 Print Assumptions c17_declarations_constant.
 
+(* prediction used by the free-running stress part (two threads drop the last two handles of a pending state at once):
+   whatever the interleaving, a round that runs to the end leaves the state freed exactly once and no stored value alive *)
+Theorem c17_stress_round : forall l, stress_valid l = true ->
+  all_enabled (fst (final_state (stress_ops l))) = [] -> stress_round l = [[7; 1; 0; 0]%Z].
+Proof. exact stress_round_prediction. Qed.
+Print Assumptions c17_stress_round.
+
 (* non-vacuity: late initialisation through a copy (init_if_needed, copy, get_promise on the copy), every handle of two
    awaiters and a dropper; the schedule lets the users subscribe and the creator drop before the resolver runs *)
 Example c17_nonvacuous :
